@@ -1,0 +1,34 @@
+//go:build verif
+
+// Contracts for the verifier in /verif (comment-only file; contributes no declarations).
+package environment
+
+// C20: the four settings of the diagnosis fail-safe watcher are read each from its OWN environment variable (seconds
+// become a duration of that many seconds). os.Getenv and strconv.Atoi are trusted: deterministic functions of their
+// argument (the environment is not changed while the gateway starts).
+//@ pure os.Getenv
+//@ ghost func atoiOK(s string) bool
+//@ ghost func atoiVal(s string) int
+//@ extern strconv.Atoi
+//@   modifies nothing
+//@   ensures (result1 == nil <==> atoiOK(s)) && (result1 == nil ==> result0 == atoiVal(s))
+//@ func GetDiagnosisFailsafeMinTimeBetweenCalls
+//@   prop C20
+//@   modifies nothing
+//@   ensures[its-own-setting-in-seconds] result1 == nil ==> result0 == atoiVal(os.Getenv("DIAGNOSIS_FAILSAFE_MIN_SEC_BETWEEN_CALLS")) * 1000000000
+//@   ensures[unreadable-is-an-error] !atoiOK(os.Getenv("DIAGNOSIS_FAILSAFE_MIN_SEC_BETWEEN_CALLS")) ==> result1 != nil
+//@ func GetDiagnosisFailsafeConsecutiveN
+//@   prop C20
+//@   modifies nothing
+//@   ensures[its-own-setting] result1 == nil ==> result0 == atoiVal(os.Getenv("DIAGNOSIS_FAILSAFE_CONSECUTIVE_N"))
+//@   ensures[unreadable-is-an-error] !atoiOK(os.Getenv("DIAGNOSIS_FAILSAFE_CONSECUTIVE_N")) ==> result1 != nil
+//@ func GetDiagnosisFailsafeMinStablePeriod
+//@   prop C20
+//@   modifies nothing
+//@   ensures[its-own-setting-in-seconds] result1 == nil ==> result0 == atoiVal(os.Getenv("DIAGNOSIS_FAILSAFE_MIN_STABLE_SEC")) * 1000000000
+//@   ensures[unreadable-is-an-error] !atoiOK(os.Getenv("DIAGNOSIS_FAILSAFE_MIN_STABLE_SEC")) ==> result1 != nil
+//@ func GetDiagnosisFailsafeCooldownPeriod
+//@   prop C20
+//@   modifies nothing
+//@   ensures[its-own-setting-in-seconds] result1 == nil ==> result0 == atoiVal(os.Getenv("DIAGNOSIS_FAILSAFE_COOLDOWN_SEC")) * 1000000000
+//@   ensures[unreadable-is-an-error] !atoiOK(os.Getenv("DIAGNOSIS_FAILSAFE_COOLDOWN_SEC")) ==> result1 != nil
